@@ -29,6 +29,8 @@ Rec == ndJsonDeserialize(IOEnv.TRACE)
 
 VARIABLES l, meta, slots, skip, errs
 vars == <<l, meta, slots, skip, errs>>
+\* (which slots were cleared is not monitor state: the recorder feeds a brand-new twin region next to a cleared
+\*  one and logs `fresh_same` - equal returned index, equal stored bytes - with every later push)
 
 Err(e, prop, why) ==
   IF PrintT(<<"ERR", ToJson([line |-> l, run |-> e.run, why |-> why, prop |-> prop])>>) THEN errs + 1 ELSE errs
@@ -41,7 +43,7 @@ Shrunk(cb, ca) == Len(cb) = Len(ca) /\ \E i \in 1..Len(cb) : ca[i] < cb[i]
 \* every check a push fails, as <<property, reason>> pairs (a wrong read must not hide a changed
 \* earlier item: they belong to different properties)
 PushVerdicts(e, sl) ==
-  IF e.panic THEN <<<<"C01", "push-panicked">>>>
+  IF e.panic THEN <<<<"C01", "push-panicked">>>> \o (IF ~e.fresh_same THEN <<<<"C08", "panics-where-fresh-accepts">>>> ELSE <<>>)
   ELSE
     (IF e.read_err # "" THEN <<<<"C01", "read-failed">>>>
      ELSE IF e.read_s # e.v_s THEN <<<<"C01", "read-differs">>>> ELSE <<>>)
@@ -54,6 +56,7 @@ PushVerdicts(e, sl) ==
         THEN <<<<"C11", "collapsed-unequal">>>> ELSE <<>>)
     \o (IF meta.collapse /\ e.same_as_prev /\ e.used_after # e.used_before
         THEN <<<<"C11", "stored-despite-equal">>>> ELSE <<>>)
+    \o (IF ~e.fresh_same THEN <<<<"C08", "differs-from-fresh-after-clear">>>> ELSE <<>>)
     \o (IF ~e.pairs_ok THEN <<<<"C18", "used-exceeds-capacity">>>> ELSE <<>>)
     \o (IF e.used_after < e.used_before THEN <<<<"C18", "used-decreased-on-push">>>> ELSE <<>>)
 
